@@ -5,11 +5,13 @@ use crate::util::*;
 use cardano_serialization_lib as csl;
 use serde_json::{json, Value as J};
 
+/// the legacy (pre-Conway) encoding of an element: every set tag 258 removed (element ids never contain the byte pattern d9 01 02)
+fn untag(b: &[u8]) -> Vec<u8> { let mut o = vec![]; let mut i = 0; while i < b.len() { if i + 2 < b.len() && b[i] == 0xd9 && b[i + 1] == 1 && b[i + 2] == 2 { i += 3; } else { o.push(b[i]); i += 1; } } o }
 fn arr_head(n: usize) -> Vec<u8> { if n < 24 { vec![0x80 + n as u8] } else { vec![0x98, n as u8] } }
 
 /// one history on one collection type: constructor path with a list, then add() one by one
 macro_rules! run_set {
-    ($ty:ty, $mk:expr, $js:expr, $enc:expr, $s:expr) => {{
+    ($ty:ty, $mk:expr, $js:expr, $enc:expr, $dec:expr, $s:expr) => {{
         let s: &J = $s;
         let ids = |k: &str| -> Vec<u64> { s[k].as_array().unwrap().iter().map(|x| x.as_u64().unwrap()).collect() };
         let init = ids("init");
@@ -26,13 +28,15 @@ macro_rules! run_set {
                     <$ty>::from_json(&format!("[{}]", parts.join(",")))?
                 }
                 _ => {
-                    let mut b = if path == "cbor" { vec![0xd9, 0x01, 0x02] } else { vec![] };
+                    let mut b = if path == "cbor" || path == "cbor_decoded_adds" { vec![0xd9, 0x01, 0x02] } else { vec![] };
                     b.extend(arr_head(init.len()));
                     for id in init.iter() { b.extend($enc(&elem(*id))); }
                     <$ty>::from_bytes(b).map_err(|e| csl::JsError::from_str(&format!("{:?}", e)))?
                 }
             };
-            let added: Vec<bool> = adds.iter().map(|id| c.add(&elem(*id))).collect();
+            // elements arriving through add(): built through the API, or (path cbor_decoded_adds) decoded from their legacy encoding
+            let decoded_adds = path == "cbor_decoded_adds";
+            let added: Vec<bool> = adds.iter().map(|id| { let e = elem(*id); if decoded_adds { c.add(&$dec(untag(&$enc(&e)))) } else { c.add(&e) } }).collect();
             let gets: Vec<J> = (0..c.len()).map(|i| jbytes(&$enc(&c.get(i)))).collect();
             Ok((c.to_bytes(), c.len(), added, gets))
         }).to_json(|(b, n, added, gets)| obj(vec![("bytes", jbytes(&b)), ("len", json!(n)), ("added", json!(added)), ("gets", J::Array(gets))]));
@@ -46,13 +50,13 @@ pub fn run_one(out: &mut Out, sc: usize, s: &J) {
         None => vec!["inputs", "keyhashes", "credentials", "certificates", "proposals", "vkeywitnesses", "bootstraps", "ws_native", "ws_plutus", "ws_data"] };
     for ty in types {
         let (table, r) = match ty {
-            "inputs" => run_set!(csl::TransactionInputs, |id: u8| mk::txin(id, id as u32), |e: &csl::TransactionInput| e.to_json().unwrap(), |e: &csl::TransactionInput| e.to_bytes(), s),
-            "keyhashes" => run_set!(csl::Ed25519KeyHashes, |id: u8| mk::keyhash(id), |e: &csl::Ed25519KeyHash| format!("\"{}\"", e.to_hex()), |e: &csl::Ed25519KeyHash| { let mut b = vec![0x58, 0x1c]; b.extend(e.to_bytes()); b }, s),
-            "credentials" => run_set!(csl::Credentials, |id: u8| if id == 3 { csl::Credential::from_scripthash(&mk::scripthash(id)) } else { csl::Credential::from_keyhash(&mk::keyhash(id)) }, |e: &csl::Credential| e.to_json().unwrap(), |e: &csl::Credential| e.to_bytes(), s),
-            "certificates" => run_set!(csl::Certificates, |id: u8| mk::cert(&json!({"k": if id == 3 { 7 } else { 2 }, "cred": {"t": 0, "h": id}, "pool": 7, "coin_n": [id]})), |e: &csl::Certificate| e.to_json().unwrap(), |e: &csl::Certificate| e.to_bytes(), s),
-            "proposals" => run_set!(csl::VotingProposals, |id: u8| mk::proposal(&json!({"dep_n": [id], "cred": {"t": 0, "h": id}})), |e: &csl::VotingProposal| e.to_json().unwrap(), |e: &csl::VotingProposal| e.to_bytes(), s),
-            "vkeywitnesses" => run_set!(csl::Vkeywitnesses, |id: u8| csl::Vkeywitness::new(&csl::Vkey::new(&mk::sk(id).to_public()), &mk::sk(id).sign(&[id])), |e: &csl::Vkeywitness| e.to_json().unwrap(), |e: &csl::Vkeywitness| e.to_bytes(), s),
-            "bootstraps" => run_set!(csl::BootstrapWitnesses, |id: u8| csl::make_icarus_bootstrap_witness(&csl::TransactionHash::from_bytes(mk::h32(id)).unwrap(), &mk::byron_addr(id, 764824073), &mk::bip32(id)), |e: &csl::BootstrapWitness| e.to_json().unwrap(), |e: &csl::BootstrapWitness| e.to_bytes(), s),
+            "inputs" => run_set!(csl::TransactionInputs, |id: u8| mk::txin(id, id as u32), |e: &csl::TransactionInput| e.to_json().unwrap(), |e: &csl::TransactionInput| e.to_bytes(), |b: Vec<u8>| csl::TransactionInput::from_bytes(b).unwrap(), s),
+            "keyhashes" => run_set!(csl::Ed25519KeyHashes, |id: u8| mk::keyhash(id), |e: &csl::Ed25519KeyHash| format!("\"{}\"", e.to_hex()), |e: &csl::Ed25519KeyHash| { let mut b = vec![0x58, 0x1c]; b.extend(e.to_bytes()); b }, |b: Vec<u8>| csl::Ed25519KeyHash::from_bytes(b[2..].to_vec()).unwrap(), s),
+            "credentials" => run_set!(csl::Credentials, |id: u8| if id == 3 { csl::Credential::from_scripthash(&mk::scripthash(id)) } else { csl::Credential::from_keyhash(&mk::keyhash(id)) }, |e: &csl::Credential| e.to_json().unwrap(), |e: &csl::Credential| e.to_bytes(), |b: Vec<u8>| csl::Credential::from_bytes(b).unwrap(), s),
+            "certificates" => run_set!(csl::Certificates, |id: u8| mk::cert(&json!({"k": if id == 3 { 7 } else if id == 2 { 3 } else { 2 }, "cred": {"t": 0, "h": id}, "pool": 7, "coin_n": [id]})), |e: &csl::Certificate| e.to_json().unwrap(), |e: &csl::Certificate| e.to_bytes(), |b: Vec<u8>| csl::Certificate::from_bytes(b).unwrap(), s),
+            "proposals" => run_set!(csl::VotingProposals, |id: u8| mk::proposal(&json!({"dep_n": [id], "cred": {"t": 0, "h": id}})), |e: &csl::VotingProposal| e.to_json().unwrap(), |e: &csl::VotingProposal| e.to_bytes(), |b: Vec<u8>| csl::VotingProposal::from_bytes(b).unwrap(), s),
+            "vkeywitnesses" => run_set!(csl::Vkeywitnesses, |id: u8| csl::Vkeywitness::new(&csl::Vkey::new(&mk::sk(id).to_public()), &mk::sk(id).sign(&[id])), |e: &csl::Vkeywitness| e.to_json().unwrap(), |e: &csl::Vkeywitness| e.to_bytes(), |b: Vec<u8>| csl::Vkeywitness::from_bytes(b).unwrap(), s),
+            "bootstraps" => run_set!(csl::BootstrapWitnesses, |id: u8| csl::make_icarus_bootstrap_witness(&csl::TransactionHash::from_bytes(mk::h32(id)).unwrap(), &mk::byron_addr(id, 764824073), &mk::bip32(id)), |e: &csl::BootstrapWitness| e.to_json().unwrap(), |e: &csl::BootstrapWitness| e.to_bytes(), |b: Vec<u8>| csl::BootstrapWitness::from_bytes(b).unwrap(), s),
             _ => run_ws(ty, s),
         };
         out.ev(json!({"ev": "Set", "sc": sc, "type": ty, "path": s["path"], "init": s["init"], "adds": s["adds"], "elem": table, "r": r}));
